@@ -12,7 +12,7 @@ from .execcore import Outcome, Exc, ExecCore, SeqHolder
 from .state import merge_states
 from . import spec as SP
 
-GLOBAL_OBJECTS = {}     # 'mod:NAME' -> static type of a module-level mutable object (lives in the pre-state heap)
+from .state import GLOBAL_OBJECTS
 ORDER_KEYS = {}         # class qual -> ghost name giving the integer that orders instances (E-CLOCK)
 
 
@@ -342,9 +342,11 @@ class ExecExpr(ExecCore):
         """map-only comprehension [e(x) for x in xs]: the result is a fresh list R with len(R) == len(xs) and the
         contract's element relation elem(src_i, res_i) for every i; the relation is an obligation on the body
         evaluated for an arbitrary index (map rule).  Calls in the body must not modify the modelled heap."""
-        if len(n.generators) != 1 or n.generators[0].ifs or n.generators[0].is_async:
-            raise Unsupported('comprehension with filters / several generators (line %d)' % n.lineno)
+        if len(n.generators) != 1 or n.generators[0].is_async:
+            raise Unsupported('comprehension with several generators (line %d)' % n.lineno)
         gen = n.generators[0]
+        if gen.ifs:
+            return self.filtered_const_comp(n, gen, st)
         k = self.comp_ordinals.setdefault(id(n), len(self.comp_ordinals))
         cspec = (getattr(self.contract, 'comps', None) or {}).get(k)
         normals, raises = self.ev(gen.iter, st)
@@ -447,6 +449,42 @@ class ExecExpr(ExecCore):
             c.assume(nn >= c.nxt)
             c.nxt = nn
             out.append((c, res))
+        return out, raises
+
+    def filtered_const_comp(self, n, gen, st):
+        """[e(x) for x in CONST if c(x)] : unrolled exactly, one fork per filter decision"""
+        normals, raises = self.ev(gen.iter, st)
+        out = []
+        for c, itv in normals:
+            view = self.iter_view(c, itv)
+            if view[0] != 'const':
+                raise Unsupported('filtering comprehension over a symbolic sequence (line %d)' % n.lineno)
+            cur = [(c, [])]
+            for it in view[1]:
+                nxt = []
+                for c2, vals in cur:
+                    ns, rs = self.assign(gen.target, it, c2)
+                    raises.extend(rs)
+                    for c3 in ns:
+                        conds = [(c3, TRUE)]
+                        for cond in gen.ifs:
+                            nc = []
+                            for c4, acc in conds:
+                                vn, vr = self.ev(cond, c4)
+                                raises.extend(vr)
+                                for c5, v in vn:
+                                    nc.append((c5, And(acc, truthy(c5, v))))
+                            conds = nc
+                        for c4, acc in conds:
+                            yes, no = self.fork(c4, acc, None)
+                            if no is not None:
+                                nxt.append((no, vals))
+                            if yes is not None:
+                                vn, vr = self.ev(n.elt, yes)
+                                raises.extend(vr)
+                                nxt.extend((c5, vals + [v]) for c5, v in vn)
+                cur = nxt
+            out.extend((c2, new_list(c2, vals)) for c2, vals in cur)
         return out, raises
 
     # ------------------------------------------------------------------ operators
@@ -877,6 +915,13 @@ class ExecExpr(ExecCore):
             a = va(base.term)
             if not compat(v.ty, ty.v):
                 self.oblige(st, shape(st, v.term, ty.v), 'valuetype[dict-store]', 'fieldtype')
+            nk = ('keys', str(base.term))
+            if nk in st.notes:
+                if key.has_py and isinstance(key.py, front.CONST_TYPES):
+                    if key.py not in st.notes[nk]:
+                        st.notes[nk] = st.notes[nk] + [key.py]
+                else:
+                    st.notes.pop(nk)
             st.DSZ = z3.Store(st.DSZ, a, st.DSZ[a] + z3.If(st.DK[a][key.term], 0, 1))
             st.DK = z3.Store(st.DK, a, z3.Store(st.DK[a], key.term, TRUE))
             st.DV = z3.Store(st.DV, a, z3.Store(st.DV[a], key.term, v.term))
@@ -903,6 +948,12 @@ class ExecExpr(ExecCore):
             raises = [self.raised(no, 'builtins:KeyError', [key])] if no is not None else []
             if has is None:
                 return [], raises
+            nk = ('keys', str(base.term))
+            if nk in has.notes:
+                if key.has_py and key.py in has.notes[nk]:
+                    has.notes[nk] = [x for x in has.notes[nk] if x != key.py]
+                else:
+                    has.notes.pop(nk)
             has.DSZ = z3.Store(has.DSZ, a, has.DSZ[a] - 1)
             has.DK = z3.Store(has.DK, a, z3.Store(has.DK[a], key.term, FALSE))
             return [has], raises
